@@ -111,6 +111,8 @@ def run_tlc(spec_dir, module, cfg, workers=8, timeout=600, extra_args=(), files=
         res["violated"] = res["violated"] or "Deadlock"
     if rc == 124:
         res["error"] = "timeout"
+    elif "TLC threw an unexpected exception" in out or "ConfigFileException" in out or "Parsing or semantic analysis failed" in out:
+        res["error"] = "tlc-exception"
     elif res["violated"] is None and "Error:" in out and "Model checking completed. No error" not in out and "Finished in" not in out:
         res["error"] = "tlc-error"
     elif rc not in (0, 12, 13, 11, 10) and res["violated"] is None and "Finished in" not in out:
